@@ -154,6 +154,13 @@ def check(run):
                 ("u%da" % n, "runlock"), ("q%d" % n, "poke %d %s" % (off, orig)), ("r%dc" % n, "rlock"), ("s%dc" % n, "scan %d 0" % root), ("u%dc" % n, "runlock")]
         expect.update({"s%da" % n: "err", "s%db" % n: "err", "m%d" % n: "err", "s%dc" % n: "ok"})
         meta["s%da" % n] = meta["s%db" % n] = meta["m%d" % n] = meta["s%dc" % n] = what
+    # 5. ... and for the FIRST transaction of a handle too: what was validated when the handle was opened says nothing about
+    # the file by the time it is first used (the header changes between open and the first read lock)
+    for n, (what, off, hx) in enumerate(bads):
+        seq += [("fo%d" % n, "db %s" % good), ("fp%d" % n, "poke %d %s" % (off, hx)), ("fr%d" % n, "rlock"), ("fs%d" % n, "scan %d 0" % root), ("fm%d" % n, "master"),
+                ("fu%d" % n, "runlock")]
+        expect.update({"fs%d" % n: "err", "fm%d" % n: "err"})
+        meta["fs%d" % n] = meta["fm%d" % n] = what + " (between open and the handle's first transaction)"
     res3, impl3, _ = ops.run_cmds("c15-retxn", seq, timeout=300, sides=("impl",))
     for cid, exp in expect.items():
         run.count(); dist["retransaction"] += 1
